@@ -48,6 +48,8 @@ A = [
     ("def mk(v):\n    def inner(x = None):\n        return [v, x]\n    return inner\nf = mk([1, 'c' * 2])", "", "f"),
     ("f = lambda y = [3]: y", "", "f"),
     ("g = partial(f, [4])", "f", "g"),
+    # keyword names of a partial that are run-time (unfrozen-heap) strings
+    ("def kf(alpha = None, **kw):\n    return [alpha, kw]\ng = partial(kf, **{host_str('alpha'): [4], host_str('k2'): [5, 'v' * 2]})", "", "g"),
     ("t = f([5])", "f", "t"),
     ("t = g()", "g", "t"),
     ("fs = [lambda: i for i in [[1], [2]]]\nt = [h() for h in fs]", "", "t"),
